@@ -272,4 +272,88 @@ theorem Regular.of_check {B : List Version} {v : Version} (h : regularCheck B v 
   · exact Or.inl ((vk_eq_iff v e).1 ((eqv_iff v e).1 h1))
   · exact Or.inr h1
 
+/-! ### sets of single-range clauses: no mutual regularity needed -/
+
+/-- the member the parser builds for a clause that is a single version or range (every operator but `!=`,
+`!=V.*`) -/
+def clauseMember : SOp → Version → RC
+  | .eq, V => .ver V
+  | .lt, V => .rng ⟨none, some V, false, false⟩
+  | .le, V => .rng ⟨none, some V, false, true⟩
+  | .gt, V => .rng ⟨some V, none, false, false⟩
+  | .ge, V => .rng ⟨some V, none, true, false⟩
+  | .compat, V => .rng ⟨some V, some (compatHigh V), true, false⟩
+  | _, V => .rng ⟨some V.firstDevrelease, some V.nextStable.firstDevrelease, true, false⟩
+
+theorem final_nextStable_wf (V : Version) (hf : V.isFinal = true) (hV : V.wf = true) : V.nextStable.wf = true := by
+  obtain ⟨h1, h2, h3, h4⟩ := final_parts hf
+  have hs : V.isStable = true := by simp [isStable, isUnstable, isPrerelease, isDevrelease, h1, h3]
+  have hne := wf_release_ne hV
+  have : V.nextStable = mk' V.epoch (incrLast V.release) none none none none := by
+    simp [nextStable, hs, h4, relNext_eq_incrLast _ hne]
+  rw [this]
+  exact wf_final _ _ (by
+    cases hr : V.release with
+    | nil => exact absurd hr hne
+    | cons a as => cases as <;> simp [incrLast])
+
+/-- the clause's constraint is that member; it is well-formed, its bounds are the clause's bounds and carry no
+local label when the literal carries none -/
+theorem clauseMember_spec (op : SOp) (V : Version) (hok : ClauseOk' op V) (hop : op ≠ .ne ∧ op ≠ .neStar)
+    (hloc : V.loc = none) :
+    clauseVC op V = .ok (.single (clauseMember op V)) ∧ (clauseMember op V).WF ∧
+    (∀ e ∈ (clauseMember op V).bounds, e ∈ clauseBounds op V) ∧ ∀ e ∈ clauseBounds op V, e.loc = none := by
+  obtain ⟨hV, _, hprec, hfin⟩ := hok
+  have oneLo : ∀ i : Bool, (RC.rng ⟨some V, none, i, false⟩).WF := fun i =>
+    ⟨by intro e he; simp [VRange.bounds] at he; subst he; exact hV, by intro m M _ hM; simp at hM⟩
+  have oneHi : ∀ j : Bool, (RC.rng ⟨none, some V, false, j⟩).WF := fun j =>
+    ⟨by intro e he; simp [VRange.bounds] at he; subst he; exact hV, by intro m M hm; simp at hm⟩
+  cases op with
+  | eq => exact ⟨rfl, hV, by simp [clauseMember, clauseBounds, RC.bounds_ver], by simp [clauseBounds, hloc]⟩
+  | ne => exact absurd rfl hop.1
+  | lt => exact ⟨rfl, oneHi false, by simp [clauseMember, clauseBounds, RC.bounds, RC.view, VRange.bounds, RC.min, RC.max],
+      by simp [clauseBounds, hloc]⟩
+  | le => exact ⟨rfl, oneHi true, by simp [clauseMember, clauseBounds, RC.bounds, RC.view, VRange.bounds, RC.min, RC.max],
+      by simp [clauseBounds, hloc]⟩
+  | gt => exact ⟨rfl, oneLo false, by simp [clauseMember, clauseBounds, RC.bounds, RC.view, VRange.bounds, RC.min, RC.max],
+      by simp [clauseBounds, hloc]⟩
+  | ge => exact ⟨rfl, oneLo true, by simp [clauseMember, clauseBounds, RC.bounds, RC.view, VRange.bounds, RC.min, RC.max],
+      by simp [clauseBounds, hloc]⟩
+  | compat =>
+    obtain ⟨hHfin, hlt, hHwf, _, _, _, _⟩ := compat_facts V hV (hprec rfl)
+    refine ⟨rfl, ⟨?_, ?_⟩, by simp [clauseMember, clauseBounds, RC.bounds, RC.view, VRange.bounds, RC.min, RC.max], ?_⟩
+    · intro e he; simp [VRange.bounds] at he; rcases he with rfl | rfl; exact hV; exact hHwf
+    · intro m M hm hM; simp at hm hM; subst hm; subst hM; exact hlt
+    · intro e he
+      simp only [clauseBounds, List.mem_cons, List.mem_nil_iff, or_false] at he
+      rcases he with rfl | rfl
+      · exact hloc
+      · exact (final_parts hHfin).2.2.2
+  | eqStar =>
+    have hf := hfin (Or.inl rfl)
+    have hlt := wildcard_ends_lt V hf hV
+    refine ⟨(eqStar_range V hf).1, ⟨?_, ?_⟩,
+      by simp [clauseMember, clauseBounds, RC.bounds, RC.view, VRange.bounds, RC.min, RC.max], ?_⟩
+    · intro e he; simp [VRange.bounds] at he
+      rcases he with rfl | rfl
+      · exact wf_firstDev hV
+      · exact wf_firstDev (final_nextStable_wf V hf hV)
+    · intro m M hm hM; simp at hm hM; subst hm; subst hM; exact hlt
+    · intro e he
+      simp only [clauseBounds, List.mem_cons, List.mem_nil_iff, or_false] at he
+      rcases he with rfl | rfl <;> rfl
+  | neStar => exact absurd rfl hop.2
+
+/-- `parse_constraint`'s fold over clauses that are single members is the fold over the members -/
+theorem foldClauses_members : ∀ (cs : List Spec.Clause) (acc : VC),
+    (∀ d ∈ cs, clauseVC d.op d.lit = .ok (.single (clauseMember d.op d.lit))) →
+    cs.foldlM (fun acc d => do VC.intersect acc (← clauseVC d.op d.lit)) acc =
+      (cs.map (fun d => clauseMember d.op d.lit)).foldlM (fun acc n => VC.intersect acc (.single n)) acc
+  | [], acc, _ => rfl
+  | d :: ds, acc, h => by
+    simp only [List.foldlM_cons, List.map_cons, h d (by simp), bind, Except.bind]
+    cases VC.intersect acc (.single (clauseMember d.op d.lit)) with
+    | error e => rfl
+    | ok r => exact foldClauses_members ds r (fun x hx => h x (by simp [hx]))
+
 end Poetry
